@@ -405,11 +405,11 @@ func renderTokens(ts []itok, style int, bits func() bool) string {
 			if t.K == "not" || t.K == "if" || t.K == "else" || t.K == "for3" || t.K == "forc" || (t.K == "op" && wordOps[t.S]) {
 				canGlue = false
 			}
-			if isNeg(t) {
-				canGlue = false // always a space before a negative literal
-			}
 			if t.K == "block" || prev.K == "block" || prev.K == "call" && t.K == "call" {
 				canGlue = canGlue || t.K == "block" || prev.K == "block"
+			}
+			if isNeg(t) {
+				canGlue = false // always a space before a negative literal
 			}
 			// the sign rule: "a -3" would be two statements; never write <space>-<digit>
 			if prev.K == "op" && prev.S == "-" && spaceBeforeMinus && startsWithDigit(t) {
